@@ -58,6 +58,8 @@ type xrec struct {
 	AS   int          `json:"as,omitempty"`
 	Op   string       `json:"op,omitempty"`
 	GIdx []gidx       `json:"gidx,omitempty"` // getelementptr: index records (operand i+1 is index i)
+	CF   string       `json:"cf,omitempty"`   // call-like kinds: form of the callee operand (value | func | bitcast | inttoptr | asm)
+	Src  *tyutil.Term `json:"src,omitempty"`  // cf = bitcast: the function type of the function that is cast
 	SP   string       `json:"sp,omitempty"`   // call-like kinds: callee type spelled "short" (return type) or "full" (function type)
 }
 
@@ -93,6 +95,9 @@ func (c *rcase) key() string {
 	}
 	if c.X.SP != "" {
 		s += " spelled " + c.X.SP
+	}
+	if c.X.CF != "" && c.X.CF != "value" && c.X.CF != "asm" {
+		s += " callee " + c.X.CF
 	}
 	for _, ix := range c.X.GIdx {
 		s += " " + ix.F
@@ -162,6 +167,8 @@ func (c *rcase) constOperand(i int) bool {
 		return i == 2 // the mask
 	case "getelementptr":
 		return i >= 1 && c.X.GIdx[i-1].F != "ssa"
+	case "call", "invoke":
+		return i == 0 && c.constCallee()
 	}
 	return false
 }
@@ -193,8 +200,47 @@ func (c *rcase) calleeText(callee string) string {
 	return fmt.Sprintf("%s%s %s(%s)", as, ty, callee, strings.Join(args, ", "))
 }
 
-// unit renders the function that produces the value and uses it at the required type.
+// constCallee reports whether the callee of a call-like case is a constant (not the value %a0).
+func (c *rcase) constCallee() bool {
+	return (c.Kind == "call" || c.Kind == "invoke") && c.X.CF != "" && c.X.CF != "value"
+}
+
+func declText(ft *tyutil.Term, name string) string {
+	var ps []string
+	for _, p := range ft.PS {
+		ps = append(ps, p.LL())
+	}
+	if ft.VA {
+		ps = append(ps, "...")
+	}
+	return fmt.Sprintf("declare %s @%s(%s)\n", ft.Ret.LL(), name, strings.Join(ps, ", "))
+}
+
+// callee renders the callee operand of a call / invoke and the declaration it needs.
+func (c *rcase) callee(name string) (decl, operand string) {
+	dst := c.Ops[0]
+	switch c.X.CF {
+	case "func":
+		return declText(dst.E, "d_"+name), "@d_" + name
+	case "bitcast":
+		return declText(c.X.Src, "d_"+name), fmt.Sprintf("bitcast (%s* @d_%s to %s)", c.X.Src.LL(), name, dst.LL())
+	case "inttoptr":
+		return "", fmt.Sprintf("inttoptr (i64 1234 to %s)", dst.LL())
+	}
+	return "", "%a0"
+}
+
+// unit renders the function that produces the value and uses it at the required type
+// (preceded by the declaration a constant callee needs).
 func (c *rcase) unit(name string) string {
+	decl := ""
+	if c.constCallee() {
+		decl, _ = c.callee(name)
+	}
+	return decl + c.unitBody(name)
+}
+
+func (c *rcase) unitBody(name string) string {
 	w := c.Want.LL()
 	op := func(i int) string { return fmt.Sprintf("%s %%a%d", c.Ops[i].LL(), i) }
 	use := fmt.Sprintf("  store %s %%r, %s* %%p\n", w, w)
@@ -297,12 +343,13 @@ func (c *rcase) unit(name string) string {
 	case c.Kind == "va_arg":
 		return simple(fmt.Sprintf("va_arg %s, %s", op(0), c.X.Ty.LL()))
 	case c.Kind == "call":
-		return simple("call " + c.calleeText("%a0"))
+		_, callee := c.callee(name)
+		return simple("call " + c.calleeText(callee))
 	case c.Kind == "phi":
 		return fmt.Sprintf("define void @%s(%s) {\nentry:\n  br label %%b\nb:\n  %%r = phi %s [ %%a0, %%entry ]\n%s  ret void\n}\n", name, sigParams, c.X.Ty.LL(), use)
 	case c.Kind == "invoke":
 		return fmt.Sprintf("define void @%s(%s) personality i32 (...)* @__gxx_personality_v0 {\nentry:\n  %sinvoke %s to label %%ok unwind label %%lp\nok:\n%s  %%0 = add i8 0, 0\n  ret void\nlp:\n  %%e = landingpad { i8*, i32 } cleanup\n  ret void\n}\n",
-			name, sigParams, res, c.calleeText("%a0"), use)
+			name, sigParams, res, c.calleeText(func() string { _, o := c.callee(name); return o }()), use)
 	case c.Kind == "callbr":
 		ft := c.Ops[0].E
 		cons := "=r,X"
@@ -380,6 +427,30 @@ func maskConst(b *tyutil.Builder, m *tyutil.Term) constant.Constant {
 		es = append(es, constant.NewInt(types.I32, int64(i%2)))
 	}
 	return constant.NewVector(ty.(*types.VectorType), es...)
+}
+
+// declared builds the declaration of a function of type ft.
+func declared(ty func(*tyutil.Term) types.Type, ft *tyutil.Term) *ir.Func {
+	var ps []*ir.Param
+	for _, p := range ft.PS {
+		ps = append(ps, ir.NewParam("", ty(p)))
+	}
+	f := ir.NewFunc("d", ty(ft.Ret), ps...)
+	f.Sig.Variadic = ft.VA
+	return f
+}
+
+// calleeValue builds the callee operand of a call / invoke case in the form the case asks for.
+func calleeValue(c *rcase, ty func(*tyutil.Term) types.Type, val value.Value) value.Value {
+	switch c.X.CF {
+	case "func":
+		return declared(ty, c.Ops[0].E)
+	case "bitcast":
+		return constant.NewBitCast(declared(ty, c.X.Src), ty(c.Ops[0]))
+	case "inttoptr":
+		return constant.NewIntToPtr(constant.NewInt(types.I64, 1234), ty(c.Ops[0]))
+	}
+	return val
 }
 
 // gepIdxConst builds a constant getelementptr index of type t.
@@ -498,9 +569,9 @@ func constructWith(b *tyutil.Builder, c *rcase) types.Type {
 	case c.Kind == "va_arg":
 		return ir.NewVAArg(a[0], ty(c.X.Ty)).Type()
 	case c.Kind == "call":
-		return ir.NewCall(a[0], a[1:]...).Type()
+		return ir.NewCall(calleeValue(c, ty, a[0]), a[1:]...).Type()
 	case c.Kind == "invoke":
-		return ir.NewInvoke(a[0], a[1:], blk("ok"), blk("lp")).Type()
+		return ir.NewInvoke(calleeValue(c, ty, a[0]), a[1:], blk("ok"), blk("lp")).Type()
 	case c.Kind == "callbr":
 		callee := ir.NewInlineAsm(ty(c.Ops[0]), "", "=r,X")
 		f := ir.NewFunc("f", types.Void)
@@ -580,12 +651,12 @@ func locateIn(f *ir.Func, c *rcase) (typed, error) {
 // type objects reported case by case once more at the very end. "printed" is llvm-as's verdict
 // on the batch module as the library prints it (every use spelled with the reported type).
 var sites = []string{"constructor", "parser", "recomputed", "constructor+reread", "parser+reread", "recomputed+reread",
-	"parser(batch)", "recomputed(batch)", "constructor(batch)", "printed(batch)"}
+	"parser(batch)", "recomputed(batch)", "constructor(batch)", "printed(batch)", "printed+recomputed(batch)"}
 
 // baseSite is the case-by-case site a batch or re-read site repeats.
 func baseSite(site string) string {
 	for _, suf := range []string{"+reread", "(batch)"} {
-		if i := strings.Index(site, suf); i >= 0 && site != "printed(batch)" {
+		if i := strings.Index(site, suf); i >= 0 && !strings.HasPrefix(site, "printed") {
 			return site[:i]
 		}
 	}
@@ -599,6 +670,9 @@ func siteName(c *rcase, site string) string {
 	if i := strings.Index(site, "(batch)"); i >= 0 {
 		if site == "printed(batch)" {
 			return "llvm-as on the library's print of the parsed module of all cases"
+		}
+		if site == "printed+recomputed(batch)" {
+			return "llvm-as on the library's print of the module of all cases after ir recomputed every cached type"
 		}
 		return siteName(c, site[:i]) + " (all cases sharing one module / one set of type objects, read after the last case)"
 	}
@@ -724,55 +798,60 @@ func batch(rep *mbt.Report, uni tyutil.Universe, results []*result, ok []bool) {
 			return x.Type(), nil
 		})
 	}
-	// the library's print of those modules, judged by llvm-as (uses are printed with the reported types)
-	printed := 0
-	for _, m := range mods {
-		var defs []*ir.Func
-		var decls []*ir.Func
-		for _, f := range m.Funcs {
-			if len(f.Blocks) > 0 {
-				defs = append(defs, f)
-			} else {
-				decls = append(decls, f)
+	// the library's print of those modules, judged by llvm-as (uses are printed with the reported types):
+	// once with the types the parser attached, once more after ir has recomputed them all
+	printCheck := func(site string) {
+		printed := 0
+		for _, m := range mods {
+			var defs []*ir.Func
+			var decls []*ir.Func
+			for _, f := range m.Funcs {
+				if len(f.Blocks) > 0 {
+					defs = append(defs, f)
+				} else {
+					decls = append(decls, f)
+				}
 			}
+			leaves := 0
+			var check func(lo, hi int)
+			check = func(lo, hi int) {
+				if leaves > 24 {
+					return
+				}
+				sub := &ir.Module{TypeDefs: m.TypeDefs, Globals: m.Globals, Funcs: append(append([]*ir.Func{}, decls...), defs[lo:hi]...)}
+				var text string
+				msg, p := mbt.Guard(func() { text = sub.String() })
+				acc, diag := false, "the printer panics: "+msg
+				if !p {
+					acc, diag = llvmoracle.Accepts(text)
+				}
+				if acc {
+					printed += hi - lo
+					return
+				}
+				if hi-lo > 1 {
+					mid := (lo + hi) / 2
+					check(lo, mid)
+					check(mid, hi)
+					return
+				}
+				leaves++
+				var n int
+				fmt.Sscanf(defs[lo].Name(), "f%d", &n)
+				results[n].out[site] = tyutil.Outcome{Err: "llvm-as rejects the printed function: " + diag + "\n" + defs[lo].LLString()}
+			}
+			check(0, len(defs))
 		}
-		leaves := 0
-		var check func(lo, hi int)
-		check = func(lo, hi int) {
-			if leaves > 24 {
-				return
-			}
-			sub := &ir.Module{TypeDefs: m.TypeDefs, Globals: m.Globals, Funcs: append(append([]*ir.Func{}, decls...), defs[lo:hi]...)}
-			var text string
-			msg, p := mbt.Guard(func() { text = sub.String() })
-			acc, diag := false, "the printer panics: "+msg
-			if !p {
-				acc, diag = llvmoracle.Accepts(text)
-			}
-			if acc {
-				printed += hi - lo
-				return
-			}
-			if hi-lo > 1 {
-				mid := (lo + hi) / 2
-				check(lo, mid)
-				check(mid, hi)
-				return
-			}
-			leaves++
-			var n int
-			fmt.Sscanf(defs[lo].Name(), "f%d", &n)
-			results[n].out["printed(batch)"] = tyutil.Outcome{Err: "llvm-as rejects the printed function: " + diag + "\n" + defs[lo].LLString()}
-		}
-		check(0, len(defs))
+		rep.Extra["functions_accepted_by_llvm_as_"+site] = printed
 	}
-	rep.Extra["functions_printed_and_accepted_by_llvm_as"] = printed
+	printCheck("printed(batch)")
 	// recomputation inside the shared module
 	for _, n := range idx {
 		if v := vals[n]; v != nil && tyutil.ClearTyp(v) {
 			results[n].out["recomputed(batch)"] = tyutil.Observe(func() (types.Type, error) { return v.Type(), nil })
 		}
 	}
+	printCheck("printed+recomputed(batch)")
 	// everything reported so far is read once more, now that all cases have been computed
 	for _, r := range results {
 		for _, s := range []string{"constructor", "parser", "recomputed"} {
@@ -991,6 +1070,7 @@ func Run(tier, replay string) {
 	t.Cleanup()
 
 	uni, cases := load(rep, tier)
+	tyutil.AliasDefs = uni
 	perm := rng.Perm(len(cases))
 	for _, k := range perm[:5] {
 		rep.Sample(map[string]interface{}{"case": cases[k].key(), "required_type": cases[k].Want.LL()})
